@@ -11,8 +11,71 @@ fn w(name: &str, f: impl FnOnce() -> Result<(), String> + std::panic::UnwindSafe
   }
 }
 
+/// the credential-level operations (set_credential_status, update + MutStatusList::set_entry, entry) against a bit-vector model
+fn credential_status_grid() -> Result<(), String> {
+  use identity_core::common::Url;
+  use identity_core::convert::{FromJson, ToJson};
+  use identity_credential::credential::{Credential, Issuer, Subject};
+  use identity_credential::revocation::status_list_2021::{CredentialStatus, StatusList2021Credential, StatusList2021CredentialBuilder, StatusList2021CredentialError, StatusPurpose};
+  let list_id = "https://example.com/credentials/status#list";
+  let subject_cred = || -> Credential { Credential::builder(Default::default()).issuer(Issuer::Url(Url::parse("https://example.com/issuer").unwrap())).subject(Subject::with_id(Url::parse("did:example:subject").unwrap())).build().unwrap() };
+  for purpose in [StatusPurpose::Revocation, StatusPurpose::Suspension] {
+    let mut slc: StatusList2021Credential = StatusList2021CredentialBuilder::new(StatusList2021::default()).purpose(purpose)
+      .subject_id(Url::parse(list_id).unwrap()).issuer(Issuer::Url(Url::parse("https://example.com/issuer").unwrap())).build().map_err(|e| format!("build: {e}"))?;
+    let n = StatusList2021::default().len();
+    let mut model = vec![false; n];
+    let on = |p: StatusPurpose| if p == StatusPurpose::Revocation { CredentialStatus::Revoked } else { CredentialStatus::Suspended };
+    for (step, (idx, value)) in [(0usize, true), (1, true), (7, true), (8, true), (n - 1, true), (1, false), (8, false), (5, false), (n, true), (n + 7, false), (0, true)].into_iter().enumerate() {
+      let mut c = subject_cred();
+      let before_json = slc.to_json().map_err(|e| e.to_string())?;
+      let r = slc.set_credential_status(&mut c, idx, value);
+      let must_fail = idx >= n || (purpose == StatusPurpose::Revocation && !value && model[idx]);
+      match r {
+        Ok(entry) => {
+          if must_fail { return Err(format!("{purpose:?} step {step}: set_credential_status({idx}, {value}) accepted")); }
+          model[idx] = value;
+          if entry.index() != idx || entry.purpose() != purpose || entry.status_list_credential().as_str() != list_id { return Err(format!("{purpose:?} step {step}: entry is {entry:?}")); }
+          let status = c.credential_status.as_ref().ok_or("credential_status not set")?;
+          let sj = status.to_json().map_err(|e| e.to_string())?;
+          if !sj.contains(&format!("\"statusListIndex\":\"{idx}\"")) || !sj.contains(list_id) { return Err(format!("{purpose:?} step {step}: credential status is {sj}")); }
+        }
+        Err(e) => {
+          if !must_fail { return Err(format!("{purpose:?} step {step}: set_credential_status({idx}, {value}) refused: {e}")); }
+          if idx < n && !matches!(e, StatusList2021CredentialError::UnreversibleRevocation) { return Err(format!("{purpose:?} step {step}: wrong error {e}")); }
+          if c.credential_status.is_some() || slc.to_json().map_err(|e| e.to_string())? != before_json { return Err(format!("{purpose:?} step {step}: refused operation changed the credential or the list")); }
+        }
+      }
+      // every observed entry agrees with the model, out of range is an error, own JSON reads back equal
+      for j in [0usize, 1, 2, 5, 6, 7, 8, 9, n - 2, n - 1] {
+        let want = if model[j] { on(purpose) } else { CredentialStatus::Valid };
+        match slc.entry(j) { Ok(s) if s == want => {}, other => return Err(format!("{purpose:?} step {step}: entry({j}) = {other:?}, model {want:?}")) }
+      }
+      if slc.entry(n).is_ok() { return Err("entry(len) is not an error".into()); }
+      let back = StatusList2021Credential::from_json(&slc.to_json().map_err(|e| e.to_string())?).map_err(|e| format!("own JSON does not read back: {e}"))?;
+      if back != slc { return Err("JSON round trip of the status list credential differs".into()); }
+    }
+    // the same through update + MutStatusList::set_entry; an error inside the closure leaves the list as it was
+    let before = slc.to_json().map_err(|e| e.to_string())?;
+    let r = slc.update(|l| { l.set_entry(2, true)?; l.set_entry(n, true) });
+    if r.is_ok() || slc.to_json().map_err(|e| e.to_string())? != before { return Err(format!("{purpose:?}: failing update changed the list (or succeeded)")); }
+    slc.update(|l| l.set_entry(2, true)).map_err(|e| e.to_string())?;
+    if slc.entry(2).ok() != Some(on(purpose)) || slc.entry(3).ok() != Some(CredentialStatus::Valid) { return Err("update(set_entry(2)) not visible / touched a neighbour".into()); }
+  }
+  // no id: not referenceable (such a credential can only come from JSON; the builder insists on an id)
+  let with_id = StatusList2021CredentialBuilder::new(StatusList2021::default()).subject_id(Url::parse(list_id).unwrap()).issuer(Issuer::Url(Url::parse("https://example.com/issuer").unwrap())).build().map_err(|e| e.to_string())?;
+  let json = with_id.to_json().map_err(|e| e.to_string())?.replace(&format!("\"id\":\"{list_id}\","), "");
+  if let Ok(mut anon) = StatusList2021Credential::from_json(&json) {
+    if anon.id().is_none() {
+      let mut c = subject_cred();
+      match anon.set_credential_status(&mut c, 0, true) { Err(StatusList2021CredentialError::Unreferenceable) if c.credential_status.is_none() && anon.entry(0).ok() == Some(CredentialStatus::Valid) => {}, other => return Err(format!("status list credential without id: {other:?}")) }
+    }
+  }
+  Ok(())
+}
+
 fn main() {
   std::panic::set_hook(Box::new(|_| {}));
+  w("sl_credential_status_grid", credential_status_grid);
   w("sl_clear_keeps_neighbour", || {
     let mut l = StatusList2021::default();
     l.set(0, true).unwrap();
